@@ -82,7 +82,7 @@ Record aorc := {
   ao_deadline        : nat;            (* number of polls that fit before the readiness deadline *)
   ao_attach_fail     : list nat;       (* indices (0-based) of the AttachInstances calls that fail *)
   ao_term_fail       : list nat;       (* indices of the TerminateInstances calls that fail *)
-  ao_terminasg_fail  : list nat        (* indices of the TerminateInstanceInAutoScalingGroup calls that fail *)
+  ao_terminasg_fail  : list bytes      (* instance ids whose TerminateInstanceInAutoScalingGroup call fails *)
 }.
 
 (* ---------- orphan termination (terminateOrphanedInstances, after the F3 repair) ---------- *)
@@ -194,7 +194,9 @@ Definition backing_instance (a : asg) (pid : bytes) : option instance :=
 
 Inductive del_result := DelOk | DelErrMin | DelErrBreach | DelNotInGroup (n : id) | DelErrTerm | DelNoInstance.
 
-Fixpoint delete_loop (a : asg) (nodes : list node) (k : nat) (fails : list nat) : list acall * del_result * asg :=
+Definition mem_bytes (x : bytes) (l : list bytes) : bool := existsb (bytes_eqb x) l.
+
+Fixpoint delete_loop (a : asg) (nodes : list node) (fails : list bytes) : list acall * del_result * asg :=
   match nodes with
   | [] => ([], DelOk, a)
   | n :: rest =>
@@ -202,16 +204,16 @@ Fixpoint delete_loop (a : asg) (nodes : list node) (k : nat) (fails : list nat) 
     else match backing_instance a (n_pid n) with
          | None => ([], DelNoInstance, a)     (* unreachable: belongs = true (proved) *)
          | Some i =>
-           if mem_nat k fails then ([ATermInAsg (i_id i) true false], DelErrTerm, a)
-           else let '(calls, r, a') := delete_loop (set_desired a (a_desired a - 1)) rest (S k) fails in
+           if mem_bytes (i_id i) fails then ([ATermInAsg (i_id i) true false], DelErrTerm, a)
+           else let '(calls, r, a') := delete_loop (set_desired a (a_desired a - 1)) rest fails in
                 (ATermInAsg (i_id i) true true :: calls, r, a')
          end
   end.
 
-Definition aws_delete_nodes (a : asg) (nodes : list node) (fails : list nat) : list acall * del_result * asg :=
+Definition aws_delete_nodes (a : asg) (nodes : list node) (fails : list bytes) : list acall * del_result * asg :=
   if a_desired a <=? a_min a then ([], DelErrMin, a)
   else if a_desired a - zlen nodes <? a_min a then ([], DelErrBreach, a)
-  else delete_loop a nodes 0 fails.
+  else delete_loop a nodes fails.
 
 (* ---------- GetInstance / providerIDToInstanceID (after the F4 repair) ---------- *)
 (* strings.Split(providerID, "/")[4], "" when there are fewer than five parts *)
